@@ -208,15 +208,18 @@ pub fn seed_collision_probe(i: usize, seed: u64) -> SeedProbeOut {
     let l_and = [4usize, 5, 7, 12][(i / 2) % 4];
     let b = pv::bucket_size(l_and);
     let lprime = l_and * b;
-    let groups = (lprime / 8).min(2 + (i / 8) % 2); // bytes of every row that are forced to 0x00 / 0xff
+    let groups = (lprime / 8).min(2); // bytes of every row that are forced to 0x00 / 0xff (2^-14 per trial)
     let mut rng = ChaCha8Rng::seed_from_u64(seed ^ 0x5eed_c011 ^ (i as u64).wrapping_mul(0x9e3779b97f4a7c15));
     let deltas: Vec<u128> = (0..n).map(|_| rng.random()).collect();
     let chosen = std::rc::Rc::new(std::cell::Cell::new(0usize));
+    let fired = std::rc::Rc::new(std::cell::Cell::new(0usize));
     {
         let f = chosen.clone();
+        let fi = fired.clone();
         let mut srng = ChaCha8Rng::seed_from_u64(rng.random());
         crate::hooks::install_tap(Some(Box::new(move |site, party, idx, value| {
             if site == "alsz.base_seed" && party == Some(c) && idx % 2 == 0 && value.len() == 16 {
+                fi.set(fi.get() + 1);
                 for _ in 0..4_000_000u32 {
                     let cand: [u8; 16] = srng.random();
                     let row = pv::aes_rng_fill(cand, groups);
@@ -285,7 +288,7 @@ pub fn seed_collision_probe(i: usize, seed: u64) -> SeedProbeOut {
     let mut hit: Option<Value> = None;
     let mut ok = false;
     if let Some(u) = &u {
-        if u.len() == lprime && chosen.get() >= 128 {
+        if u.len() == lprime && chosen.get() >= 128 && chosen.get() == fired.get() {
             ok = true;
             for g in 0..groups {
                 for a in 8 * g..8 * g + 8 {
